@@ -3,7 +3,12 @@ import SignaloModel.Proofs.SinksProofs
 /-!
 # C11 — Statistics sinks finalise to the batch statistic of everything received
 
-Property theorems for C11 (statements are printed by `#check`, axioms by `#check @SinkModels.min_feed
+The property theorems for C11: `#check` prints each statement, `#print axioms` its axioms;
+`bin/check C11` re-elaborates this file on every run and audits the axiom lists.
+-/
+open SignaloModel
+
+#check @SinkModels.min_feed
 #check @SinkModels.max_feed
 #check @SinkModels.bounds_feed
 #check @SinkModels.last_feed
@@ -16,14 +21,8 @@ Property theorems for C11 (statements are printed by `#check`, axioms by `#check
 #check @SinkModels.mean_finalize
 #check @SinkModels.meanVar_finalize
 #check @SinkModels.finalize_empty
-#print axioms`;
-`bin/check C11` re-elaborates this file on every run and audits the axiom lists).
--/
-open SignaloModel
-
 #check @Sinks.winv_step
 
-#print axioms Sinks.winv_step
 #print axioms SinkModels.min_feed
 #print axioms SinkModels.max_feed
 #print axioms SinkModels.bounds_feed
@@ -37,3 +36,4 @@ open SignaloModel
 #print axioms SinkModels.mean_finalize
 #print axioms SinkModels.meanVar_finalize
 #print axioms SinkModels.finalize_empty
+#print axioms Sinks.winv_step
